@@ -319,7 +319,7 @@ impl Property for P {
     }
     fn rule(&self) -> String {
         "Enumerated: subsets of {alloc, std, x25519, p256, p384, p521} (quick: a fixed strength-2 covering set of 18 subsets + 4 chosen by VERIF_SEED; thorough: all 64) and one guard on/off case. \
-         Oracle per subset, driving cargo in 5 parallel lanes: (1) cargo check --lib succeeds; (2) a probe using only the in-place API of each enabled KEM builds, runs a scripted session per KEM x KDF x AEAD x mode and prints a transcript digest equal to the same KEM's digest under the full feature set (and disabled KEMs are absent); (3) a probe naming seal/open/single_shot_seal/single_shot_open compiles iff alloc or std; (4) cargo test --lib -- --skip kat_test passes. Guard case: guard-on digests equal guard-off; a program calling verif_set_seq compiles only with the guard on; the 35-test baseline passes with the guard off; examples and benchmark targets build. \
+         Oracle per subset, driving cargo in 5 parallel lanes: (1) cargo check --lib succeeds; (2) a probe using only the in-place API of each enabled KEM builds, runs a scripted session per KEM x KDF x AEAD x mode (followed, on the same thread, by a sender presenting the same identity public key with a different private key and by the same session once more) and prints a transcript digest equal to the same KEM's digest under the full feature set (and disabled KEMs are absent); (3) a probe naming seal/open/single_shot_seal/single_shot_open compiles iff alloc or std; (4) cargo test --lib -- --skip kat_test passes. Guard case: guard-on digests equal guard-off; a program calling verif_set_seq compiles only with the guard on; the 35-test baseline passes with the guard off; examples and benchmark targets build. \
          Non-trivial: every subset other than the default, and the guard case; distinct by subset."
             .into()
     }
